@@ -139,6 +139,15 @@ def register(reg):
         raises_props = ("C15",)
         modifies = ("NS.written", "NS.pending")
         call_raises = NET_READ_RAISES + NET_WRITE_RAISES + [PE, "Cancelled", "socksio.ProtocolError"]
+        back_edges_of_inlined_loops = True
+
+        def on_back_edge(self, c, ordinal):
+            # C15 ("a call never hangs once its input has ended"): the negotiation has no loop of its own; if a change gives it one
+            # (reading until a reply is complete, say - seeds C15-w4-2 / C16-w4-2), a read that reported end of input (b"") must
+            # end it: every further read returns b"" at once, no timeout ever fires, and the loop spins for ever
+            reads = [e for e in c.since_cut({"net.read"}) if "result" in e.data]
+            goals = [z3.Length(e.data["result"].t) > 0 for e in reads]
+            return [("a_read_that_reported_end_of_input_ends_the_negotiation_loop", ("C15",), z3.And(*goals) if goals else True)]
 
         def callsite(self, c, ev):
             e, st = c.eng, c.st
